@@ -1292,7 +1292,11 @@ class Quaternion(np.ndarray):
         q**a : numpy.ndarray
             Quaternion :math:`\\mathbf{q}` to the power of ``a``
         """
-        return np.e**(a*self.logarithm)
+        log_w, *log_v = a*self.logarithm
+        t = np.linalg.norm(log_v)       # a*theta
+        if t == 0.0:
+            return np.e**log_w * np.array([1.0, 0.0, 0.0, 0.0])
+        return np.e**log_w * np.array([np.cos(t), *(np.sin(t)*np.array(log_v)/t)])
 
     def is_pure(self) -> bool:
         """
